@@ -21,7 +21,7 @@ import resubmit_env as E
 from jadeenv import jname, jid
 
 FAILS = [None, "load", "results_json", "closure", "reset_before", "reset_after", "prep_config", "prep_jobs",
-         "prep_groups", "events", "load_mgr", "round"]
+         "prep_groups", "events", "load_mgr", "round", "squeue", "squeue"]
 GROUPS = ["absent", "ok", "lenMismatch", "unknownName", "raises"]
 
 
@@ -429,7 +429,12 @@ class ResubmitSuite(Suite):
 
     def _impl_cmd(self, case, d):
         from jade.cli.resubmit_jobs import resubmit_jobs
-        out = E.fabricate(d / "out", case["sub"])
+        sub = case["sub"]
+        if "leftoverIds" not in sub and len(canon(sub)) % 2 == 0:
+            # every other submission: the last node's HPC job id is still listed in the job status (SLURM: a node's own
+            # round always sees its own batch as RUNNING), so resubmit-jobs' round polls the scheduler
+            sub = dict(sub, leftoverIds=["4999"])
+        out = E.fabricate(d / "out", sub)
         E.FakeSub.reset()
         runs_model, runs_impl, obs_steps = [], [], []
         done_batches = set(E.batch_files(out))
